@@ -1750,7 +1750,7 @@ class C01(Prop):
     design_ref = "DESIGN.md §4 C01"
     assumptions = [
         "the emitted HLSL is read back with the project's own front end (it is inside the input language: C04) and the typed IR of the emitted text is compared with the typed IR of the source, item by item: function bodies with literal values (bit patterns), operators, conversions, call targets, argument lists and parameter directions, global initialisers, struct layouts, enum values; theorems: the comparison succeeds only if the second IR is the first with its local variables renamed one-to-one, and it never reports a difference between identical dumps",
-        "proved (C01_same_behaviour): if the dump of IR1 is the encoding `enc_func f1` of a function tree and the comparison succeeds, the dump of IR2 is the encoding of a function that, under the evaluator of coq/model/Sem.v (locals are cells addressed by VariableId; reads, writes through member / swizzle / subscript paths, compound assignment, increments, copy-in / copy-out calls, conditionals, loops with break / continue, return; switch and discard have no rule and stop both sides alike), returns the same value, copies the same values back through out / inout parameters and has the same effect on everything that is not a local, for every fuel, argument list, outside state and interpretation of the operator / literal / conversion / accessor / callee / global words. The hypothesis is checked on every run: the extracted checker decodes every function dump into a tree and re-encodes it (the 4th and 5th number of its EQUIV line; an undecodable function dump is reported)",
+        "proved (C01_same_behaviour): if the dump of IR1 is the encoding `enc_func f1` of a function tree and the comparison succeeds, the dump of IR2 is the encoding of a function that, under the evaluator of coq/model/Sem.v (locals are cells addressed by VariableId; reads, writes through member / swizzle / subscript paths, compound assignment, increments, copy-in / copy-out calls, conditionals, loops with break / continue, switch with fall-through, discard, return), is discarded in the same cases, returns the same value, copies the same values back through out / inout parameters and has the same effect on everything that is not a local, for every fuel, argument list, outside state and interpretation of the operator / literal / conversion / accessor / callee / global words. The hypothesis is checked on every run: the extracted checker decodes every function dump into a tree and re-encodes it (the 4th and 5th number of its EQUIV line; an undecodable function dump is reported)",
         "assumed, not proved: (1) the front end's reading of the emitted text is HLSL's reading of it — the emitted text has every conversion explicit, overloads resolved to distinct names and literals typed by suffix, so what is left to HLSL's rules is what C09/C10/C11/C16 cover; (2) `enc_func` is not proved injective (a dump could in principle be the encoding of a second tree); (3) what the words do (the interpretation) is a parameter: the theorem is that both sides use the same words in the same places, not what `Add` computes",
         "'bit-identical for all argument values' follows from the theorem for every interpretation; it is not tested on values of a concrete HLSL machine",
         "resources are outside the property's subset: items that mention resource types are compared, but a difference there (BufferAddress lowered to ByteAddressBuffer for DirectX) is counted, not reported",
